@@ -230,6 +230,9 @@ Definition gen_random_attribute (nm : string) (dom : option domain) (only_leaf :
   match dom with
   | None => Err FlamaException
   | Some d =>
+      (* fix: nothing can be drawn from a domain without elements and without ranges (every targeted feature used to
+         get the value None) *)
+      if match dom_elems d, dom_ranges d with [], [] => true | _, _ => false end then Err FlamaException else
       let fs := get_features m in
       match decide fs only_leaf nm d draws with
       | Err e => Err e
